@@ -309,3 +309,159 @@ pub(crate) fn full_class_rfc3597_every_value() {
         assert!(q.is_err());
     }
 }
+
+// ---- (iii) Display -> FromStr round trip for every 16-bit value ----------
+
+/// [C17.roundtrip] for every u16 v: parse(render(Type(v))) == Type(v).  The text
+/// is rendered by the real `Display` impl (incl. core::fmt's u16 formatting)
+/// into a fixed buffer, so no allocation is involved.
+#[kani::proof]
+#[kani::unwind(12)]
+pub(crate) fn full_type_display_fromstr_roundtrip() {
+    use core::fmt::Write;
+    let v: u16 = kani::any();
+    let mut t = Txt::new();
+    assert!(write!(t, "{}", Type::from(v)).is_ok());
+    assert!(is_ok_type(Type::from_str(t.as_str()), v));
+}
+
+#[kani::proof]
+#[kani::unwind(12)]
+pub(crate) fn full_class_display_fromstr_roundtrip() {
+    use core::fmt::Write;
+    let v: u16 = kani::any();
+    let mut t = Txt::new();
+    assert!(write!(t, "{}", Class::from(v)).is_ok());
+    assert!(is_ok_class(Class::from_str(t.as_str()), v));
+}
+
+#[kani::proof]
+#[kani::unwind(12)]
+pub(crate) fn full_qtype_display_fromstr_roundtrip() {
+    use core::fmt::Write;
+    let v: u16 = kani::any();
+    let mut t = Txt::new();
+    assert!(write!(t, "{}", Qtype::from(v)).is_ok());
+    assert!(is_ok_qtype(Qtype::from_str(t.as_str()), v));
+}
+
+#[kani::proof]
+#[kani::unwind(12)]
+pub(crate) fn full_qclass_display_fromstr_roundtrip() {
+    use core::fmt::Write;
+    let v: u16 = kani::any();
+    let mut t = Txt::new();
+    assert!(write!(t, "{}", Qclass::from(v)).is_ok());
+    assert!(is_ok_qclass(Qclass::from_str(t.as_str()), v));
+}
+
+// ---- (iv) exactness on all ASCII strings of <= 10 octets (bounded) ------
+
+fn ci_eq(a: &[u8], b: &[u8]) -> bool {
+    if a.len() != b.len() {
+        return false;
+    }
+    let mut i = 0;
+    while i < a.len() {
+        if a[i].to_ascii_lowercase() != b[i].to_ascii_lowercase() {
+            return false;
+        }
+        i += 1;
+    }
+    true
+}
+
+/// Reference for the numeric tail: what `u16::from_str` documents - an optional
+/// '+' followed by one or more decimal digits whose value fits 16 bits.
+fn ref_u16(s: &[u8]) -> Option<u16> {
+    let d = if !s.is_empty() && s[0] == b'+' { &s[1..] } else { s };
+    if d.is_empty() {
+        return None;
+    }
+    let mut v: u32 = 0;
+    let mut i = 0;
+    while i < d.len() {
+        if !d[i].is_ascii_digit() {
+            return None;
+        }
+        v = v * 10 + (d[i] - b'0') as u32;
+        if v > 65535 {
+            return None;
+        }
+        i += 1;
+    }
+    Some(v as u16)
+}
+
+fn ref_lookup(s: &[u8], table: &[(&str, u16)]) -> Option<u16> {
+    let mut i = 0;
+    while i < table.len() {
+        if ci_eq(s, table[i].0.as_bytes()) {
+            return Some(table[i].1);
+        }
+        i += 1;
+    }
+    None
+}
+
+fn ref_generic(s: &[u8], prefix: &[u8]) -> Option<u16> {
+    if s.len() >= prefix.len() && ci_eq(&s[..prefix.len()], prefix) {
+        ref_u16(&s[prefix.len()..])
+    } else {
+        None
+    }
+}
+
+fn any_ascii(out: &mut Txt, max: usize) {
+    let n: usize = kani::any();
+    kani::assume(n <= max);
+    let mut i = 0;
+    while i < max {
+        if i < n {
+            let c: u8 = kani::any();
+            kani::assume(c < 128);
+            out.push(c);
+        }
+        i += 1;
+    }
+}
+
+/// For EVERY ASCII string of <= 10 octets, `Class::from_str`/`Qclass::from_str`
+/// return exactly what the reference says (mnemonic, CLASSnnn, or error).
+/// Bounded: strings longer than 10 octets are outside.
+#[kani::proof]
+#[kani::unwind(12)]
+pub(crate) fn bnd_class_fromstr_exact_len10() {
+    let mut t = Txt::new();
+    any_ascii(&mut t, MAXTXT);
+    let s = t.as_str();
+    let want_c = ref_lookup(s.as_bytes(), &CLASS_TABLE).or(ref_generic(s.as_bytes(), b"CLASS"));
+    let want_q = ref_lookup(s.as_bytes(), &QCLASS_ONLY_TABLE).or(want_c);
+    match Class::from_str(s) {
+        Ok(c) => assert!(want_c == Some(u16::from(c))),
+        Err(_) => assert!(want_c.is_none()),
+    }
+    match Qclass::from_str(s) {
+        Ok(c) => assert!(want_q == Some(u16::from(c))),
+        Err(_) => assert!(want_q.is_none()),
+    }
+}
+
+/// The same for `Type::from_str`/`Qtype::from_str`.
+#[kani::proof]
+#[kani::unwind(22)]
+pub(crate) fn bnd_type_fromstr_exact_len10() {
+    let mut t = Txt::new();
+    any_ascii(&mut t, MAXTXT);
+    let s = t.as_str();
+    let want_t = ref_lookup(s.as_bytes(), &TYPE_TABLE).or(ref_generic(s.as_bytes(), b"TYPE"));
+    let want_q = ref_lookup(s.as_bytes(), &QTYPE_ONLY_TABLE).or(want_t);
+    match Type::from_str(s) {
+        Ok(c) => assert!(want_t == Some(u16::from(c))),
+        Err(_) => assert!(want_t.is_none()),
+    }
+    match Qtype::from_str(s) {
+        Ok(c) => assert!(want_q == Some(u16::from(c))),
+        Err(_) => assert!(want_q.is_none()),
+    }
+}
